@@ -42,6 +42,8 @@ C11_PingReply(o) == \A i \in Idx(o) : o[i].k = "pingreply" => o[i].res = "ok"
 (* uri does not bring the server down (C02)                                                                  *)
 C04_SrvOwnHandler(o) == \A i \in Idx(o) : o[i].k = "srvown" => o[i].res = "ok"
 C02_SrvSurvives(o) == \A i \in Idx(o) : (o[i].k = "srvalive" => o[i].res = "y") /\ o[i].k # "panic"
+(* C17: several sessions pinging a builder-made server at once each get their own replies *)
+C17_SrvPingIsolated(o) == \A i \in Idx(o) : o[i].k = "srvstorm" => o[i].res = "own"
 (* C08: nothing a server says during the handshake brings the client's process down *)
 C08_ClientNoPanic(o) == \A i \in Idx(o) : o[i].k # "panic"
 (* C08 at the level of the Client: Establish reports success only when a session was really *)
@@ -61,7 +63,8 @@ Ops(o) == << <<"C19_Recovers", C19_Recovers(o)>>, <<"C19_NoSpin", C19_NoSpin(o)>
              <<"C13_ClientReleases", C13_ClientReleases(o)>>, <<"C13_ClientListenerEnds", C13_ClientListenerEnds(o)>>, <<"C08_ClientTruthful", C08_ClientTruthful(o)>>,
              <<"C19_Responsive", C19_Responsive(o)>>, <<"C11_PingReply", C11_PingReply(o)>>,
              <<"C08_ClientNoPanic", C08_ClientNoPanic(o)>>,
-             <<"C04_SrvOwnHandler", C04_SrvOwnHandler(o)>>, <<"C02_SrvSurvives", C02_SrvSurvives(o)>> >>
+             <<"C04_SrvOwnHandler", C04_SrvOwnHandler(o)>>, <<"C02_SrvSurvives", C02_SrvSurvives(o)>>,
+             <<"C17_SrvPingIsolated", C17_SrvPingIsolated(o)>> >>
 Report(n, o) ==
   LET ops == Ops(o)
   IN \A i \in 1 .. Len(ops) : ops[i][2] \/ PrintT(<<"BAD", n, ops[i][1]>>)
